@@ -238,6 +238,8 @@ type StoreView struct {
 	PackSizes map[ID]int
 	key       *crypto.Key
 	files     map[backend.Handle][]byte
+	lazy      map[string][]byte
+	lazyMode  bool
 }
 
 // View decodes everything in files.
@@ -341,6 +343,42 @@ func (v *StoreView) PlainAnywhere(key string) []byte {
 	return nil
 }
 
+// ReachableNoPlain is Reachable for views built without plaintexts: tree blobs
+// are decrypted on demand from the stored packs.
+func (v *StoreView) ReachableNoPlain(tree ID) (need map[string]bool, missing []string) {
+	if v.lazy == nil {
+		v.lazy = map[string][]byte{}
+	}
+	v.lazyMode = true
+	defer func() { v.lazyMode = false }()
+	return v.Reachable(tree)
+}
+
+func (v *StoreView) lazyPlain(key string) []byte {
+	if pt, ok := v.lazy[key]; ok {
+		return pt
+	}
+	for _, e := range v.Indexed[key] {
+		pc := v.Packs[e.Pack]
+		if pc == nil {
+			continue
+		}
+		data := v.files[backend.Handle{Type: backend.PackFile, Name: e.Pack}]
+		if int(e.Offset+e.Length) > len(data) {
+			continue
+		}
+		pt, err := open(v.key, data[e.Offset:e.Offset+e.Length])
+		if err == nil && e.ULen != 0 {
+			pt, err = zdec.DecodeAll(pt, nil)
+		}
+		if err == nil && Hash(pt) == key[len(key)-64:] {
+			v.lazy[key] = pt
+			return pt
+		}
+	}
+	return nil
+}
+
 // Reachable walks a snapshot's tree using only available blobs. It returns the
 // set of blob keys the snapshot needs and the list of those that are missing
 // (not available per Available) or undecodable.
@@ -358,6 +396,9 @@ func (v *StoreView) Reachable(tree ID) (need map[string]bool, missing []string) 
 			return
 		}
 		pt := v.Plain(k)
+		if pt == nil && v.lazyMode {
+			pt = v.lazyPlain(k)
+		}
 		if pt == nil {
 			missing = append(missing, k+" (no plaintext)")
 			return
